@@ -220,7 +220,7 @@ def check_c34(tier):
         "known_findings_hit": sorted({"%s/%s/%s" % (k["property"], k["monitor"], k["cause"]) for k, _ in known_hits}),
         "exhaustive": True,
     }
-    dv.write_evidence("C34", tier, "model_checking" if not divsum else "exploration", cov,
+    dv.write_evidence("C34", tier, "model_checking", cov,
                       ["abstract numeric points stand for u64 values; relations between values other than the points' are not explored",
                        "fields not mentioned by the property are default except for one invalid-value scenario at a time",
                        "configurations are built as Rust structs; TOML / environment parsing is not part of the check"],
@@ -790,7 +790,7 @@ def check_c36(tier):
         "known_findings_hit": sorted({"%s/%s/%s" % (k["property"], k["monitor"], k["cause"]) for k, _ in known_hits}),
         "exhaustive": all(m["cases_enumerated"] == m["cases_executed"] for m in mc),
     }
-    level = "model_checking" if not (cnt["div_S"] or cnt["div_M"]) else "exploration"
+    level = "model_checking"
     cov["differences_predicted_by_spec"] = sum(1 for c in allcases if _c36_out(c["expM"]) != _c36_out(c["expS"]))
     dv.write_evidence("C36", tier, level, cov,
                       ["the follower operator is DECore's (as implemented); the repaired merge step of MergeAE.tla satisfies the property "
@@ -954,7 +954,7 @@ def check_c13(tier):
         "known_findings_hit": sorted({"%s/%s/%s" % (k["property"], k["monitor"], k["cause"]) for k, _ in known_hits}),
         "exhaustive": total["not_driven"] == 0,
     }
-    dv.write_evidence("C13", tier, "model_checking" if not divsum else "exploration", cov,
+    dv.write_evidence("C13", tier, "model_checking", cov,
                       ["the policy actually used is observed through the outcome class only; on a leader linearizable and lease reads "
                        "have the same outcome (a valid lease also serves linearizable reads), so 'lease served instead of the "
                        "linearizable default' is not observable and not judged",
